@@ -655,6 +655,9 @@ var (
 		`{"o":"and","v":[1,"a"]}`,
 		`{"f":1}`,
 		`{"o":"and","v":[{}]}`,
+		// a collation named on the outer group only, three levels deep
+		`{"o":"and","c":"fr","v":[{"o":"or","v":[{"f":"x","o":"=","v":"a"},{"f":"y","o":"<","v":2}]}]}`,
+		`{"o":"or","c":"de","v":[{"o":"and","v":[{"o":"or","v":[{"f":"x","o":"!=","v":"b"}]}]},{"f":"x","o":"=","v":"a","c":"en"}]}`,
 		// groups without any list of members at all
 		`{"o":"and"}`,
 		`{"o":"or","f":"x"}`,
